@@ -15,7 +15,7 @@ PROP = "C05"
 
 VALUES = {
     "v1": {"n": 0, "tag": 11, "time": 1000},   # the empty value
-    "v2": {"n": 40, "tag": 22, "time": 2 ** 64 + 4102444800000, "metadata": {"name": "long-record-é", "list": [1, 2.5, None]}, "raw_metadata": b"\x00\xff\x10"},
+    "v2": {"n": 40, "tag": 22, "algo": "sha512", "time": 2 ** 64 + 4102444800000, "metadata": {"name": "long-record-é", "list": [1, 2.5, None]}, "raw_metadata": b"\x00\xff\x10"},
 }
 
 
@@ -68,7 +68,7 @@ def seeds_for(ctx_sri, keys):
     d1 = ref.gen(VALUES["v1"]["n"], VALUES["v1"]["tag"])
     d2 = ref.gen(VALUES["v2"]["n"], VALUES["v2"]["tag"])
     s1 = ref.sri("sha256", d1)
-    s2 = ref.sri("sha256", d2)
+    s2 = ref.sri("sha512", d2)
 
     def rec(key, sri, v):
         return {"key": key, "integrity": sri, "time": VALUES[v]["time"], "size": VALUES[v]["n"], "metadata": VALUES[v].get("metadata"),
